@@ -1,0 +1,276 @@
+//go:build verif
+
+package smf
+
+// Contracts for the deductive verifier in /verif (govc). The //@ lines are read by the verifier; functions
+// named verif* are proof harnesses (lemmas over the contracts), compiled only with -tags verif.
+
+// ---------------------------------------------------------------- meta events (C15)
+
+//@ func _MetaMessage
+//@ requires len(data) < 4294967296
+//@ ensures [P:C15] fresh(result) && len(result) == 2 + vlqLen(uint32(len(data))) + len(data)
+//@ ensures [P:C15] result[0] == 0xFF && result[1] == typ
+//@ ensures [P:C15] forall i int :: 0 <= i && i < vlqLen(uint32(len(data))) ==> result[2 + i] == vlqByte(uint32(len(data)), i)
+//@ ensures [P:C15] forall i int :: 0 <= i && i < len(data) ==> result[2 + vlqLen(uint32(len(data))) + i] == data[i]
+
+// ---------------------------------------------------------------- file-level classification (C08)
+
+//@ func getMetaType
+//@ ensures [P:C08] result == metaKind(b)
+
+//@ func getType
+//@ ensures [P:C08] result == smfTypeOf(len(msg), msg[0], msg[1])
+
+//@ func (Message).Type
+//@ ensures [P:C08] result == smfTypeOf(len(m), m[0], m[1])
+
+//@ func (Message).IsMeta
+//@ ensures result == (len(m) > 0 && m[0] == 0xFF)
+
+//@ func (Message).Is
+//@ ensures [P:C08] t > midi.UnknownMsg ==> result == (smfTypeOf(len(m), m[0], m[1]) == t)
+//@ ensures [P:C08] t == midi.ChannelMsg ==> result == isChannelT(smfTypeOf(len(m), m[0], m[1]))
+//@ ensures [P:C08] t == midi.SysCommonMsg ==> result == isSysCommonT(smfTypeOf(len(m), m[0], m[1]))
+//@ ensures [P:C08] t == midi.RealTimeMsg ==> result == isRealTimeT(smfTypeOf(len(m), m[0], m[1]))
+//@ ensures [P:C08] t == midi.SysExMsg ==> result == (smfTypeOf(len(m), m[0], m[1]) == midi.SysExMsg)
+//@ ensures [P:C08] t == midi.UnknownMsg ==> result == (smfTypeOf(len(m), m[0], m[1]) == midi.UnknownMsg)
+//@ ensures [P:C08] t == MetaMsg ==> result == isMetaT(smfTypeOf(len(m), m[0], m[1]))
+
+//@ func (Message).IsPlayable
+//@ ensures [P:C12] result == ((len(m) == 0 || m[0] != 0xFF) && smfTypeOf(len(m), m[0], m[1]) > midi.UnknownMsg)
+
+// ---------------------------------------------------------------- reading length-prefixed data from an in-memory reader
+
+//@ func dec2binDenom
+//@ ensures [P:C15] isPow2(dec) ==> bin == log2pow(dec)
+//@ loop 0 invariant old(dec) > 1 && dec >= 1 && int(bin) + int(dec) <= 255
+//@ loop 0 invariant isPow2(old(dec)) ==> (isPow2(dec) && dec >= 2 && log2pow(dec) + bin == log2pow(old(dec)))
+//@ loop 0 decreases int(dec)
+
+//@ func bin2decDenom
+//@ ensures [P:C15] bin <= 7 ==> result == pow2u8(bin)
+
+//@ func (Message).metaDataWithoutVarlength
+//@ requires len(m) >= 3
+//@ ensures len(result) == len(m) - 3 && ref(result) == ref(m) && off(result) == off(m) + 3
+
+// ---- fixed layouts
+
+//@ func MetaChannel
+//@ ensures [P:C15] fresh(result) && len(result) == 4 && result[0] == 0xFF && result[1] == 0x20 && result[2] == 1 && result[3] == ch
+
+//@ func (Message).GetMetaChannel
+//@ modifies *channel
+//@ ensures [P:C08] result ==> smfTypeOf(len(m), m[0], m[1]) == MetaChannelMsg
+//@ ensures [P:C15] (len(m) == 4 && m[0] == 0xFF && m[1] == 0x20) ==> (result && (channel != nil ==> *channel == m[3]))
+
+//@ func MetaPort
+//@ ensures [P:C15] fresh(result) && len(result) == 4 && result[0] == 0xFF && result[1] == 0x21 && result[2] == 1 && result[3] == p
+
+//@ func (Message).GetMetaPort
+//@ modifies *port
+//@ ensures [P:C08] result ==> smfTypeOf(len(m), m[0], m[1]) == MetaPortMsg
+//@ ensures [P:C15] (len(m) == 4 && m[0] == 0xFF && m[1] == 0x21) ==> (result && (port != nil ==> *port == m[3]))
+
+//@ func MetaSequenceNo
+//@ ensures [P:C15] fresh(result) && len(result) == 5 && result[0] == 0xFF && result[1] == 0x00 && result[2] == 2 && result[3] == uint8(no >> 8) && result[4] == uint8(no)
+
+//@ func (Message).GetMetaSeqNumber
+//@ modifies *sequenceNumber
+//@ ensures [P:C08] result ==> smfTypeOf(len(m), m[0], m[1]) == MetaSeqNumberMsg
+//@ ensures [P:C15] (len(m) == 5 && m[0] == 0xFF && m[1] == 0x00) ==> (result && (sequenceNumber != nil ==> *sequenceNumber == ((uint16(m[3]) << 8) | uint16(m[4]))))
+
+//@ func MetaSMPTE
+//@ ensures [P:C15] fresh(result) && len(result) == 8 && result[0] == 0xFF && result[1] == 0x54 && result[2] == 5
+//@ ensures [P:C15] result[3] == hour && result[4] == minute && result[5] == second && result[6] == frame && result[7] == fractionalFrame
+
+//@ func (Message).GetMetaSMPTEOffsetMsg
+//@ requires distinct5(hour, minute, second, frame, fractframe)
+//@ modifies *hour, *minute, *second, *frame, *fractframe
+//@ ensures [P:C08] result ==> smfTypeOf(len(m), m[0], m[1]) == MetaSMPTEOffsetMsg
+//@ ensures [P:C15] (len(m) == 8 && m[0] == 0xFF && m[1] == 0x54) ==> result
+//@ ensures [P:C15] result ==> ((hour != nil ==> *hour == m[3]) && (minute != nil ==> *minute == m[4]) && (second != nil ==> *second == m[5]) && (frame != nil ==> *frame == m[6]) && (fractframe != nil ==> *fractframe == m[7]))
+
+//@ func MetaTimeSig
+//@ ensures [P:C15] fresh(result) && len(result) == 7 && result[0] == 0xFF && result[1] == 0x58 && result[2] == 4 && result[3] == numerator
+//@ ensures [P:C15] isPow2(denominator) ==> result[4] == log2pow(denominator)
+//@ ensures [P:C15] result[5] == (clocksPerClick == 0 ? 8 : clocksPerClick) && result[6] == (demiSemiQuaverPerQuarter == 0 ? 8 : demiSemiQuaverPerQuarter)
+
+//@ func MetaMeter
+//@ ensures [P:C15] fresh(result) && len(result) == 7 && result[0] == 0xFF && result[1] == 0x58 && result[2] == 4 && result[3] == num && result[5] == 8 && result[6] == 8
+//@ ensures [P:C15] isPow2(denom) ==> result[4] == log2pow(denom)
+
+//@ func (Message).GetMetaTimeSig
+//@ requires distinct4(numerator, denominator, clocksPerClick, demiSemiQuaverPerQuarter)
+//@ modifies *numerator, *denominator, *clocksPerClick, *demiSemiQuaverPerQuarter
+//@ ensures [P:C08] is ==> smfTypeOf(len(m), m[0], m[1]) == MetaTimeSigMsg
+//@ ensures [P:C15] (len(m) == 7 && m[0] == 0xFF && m[1] == 0x58) ==> is
+//@ ensures [P:C15] is ==> ((numerator != nil ==> *numerator == m[3]) && (clocksPerClick != nil ==> *clocksPerClick == m[5]) && (demiSemiQuaverPerQuarter != nil ==> *demiSemiQuaverPerQuarter == m[6]))
+//@ ensures [P:C15] is && denominator != nil && m[4] <= 7 ==> *denominator == pow2u8(m[4])
+
+//@ func (Message).GetMetaMeter
+//@ requires distinct2(num, denom)
+//@ modifies *num, *denom
+//@ ensures [P:C08] is ==> smfTypeOf(len(m), m[0], m[1]) == MetaTimeSigMsg
+//@ ensures [P:C15] (len(m) == 7 && m[0] == 0xFF && m[1] == 0x58) ==> is
+//@ ensures [P:C15] is ==> ((num != nil ==> *num == m[3]) && ((denom != nil && m[4] <= 7) ==> *denom == pow2u8(m[4])))
+
+//@ func MetaKey
+//@ requires num <= 127
+//@ ensures [P:C15] fresh(result) && len(result) == 5 && result[0] == 0xFF && result[1] == 0x59 && result[2] == 2
+//@ ensures [P:C15] result[3] == (isFlat ? uint8(0 - num) : num) && result[4] == (isMajor ? 0 : 1)
+
+//@ func key
+//@ requires num <= 127
+//@ ensures [P:C15] fresh(result) && len(result) == 5 && result[0] == 0xFF && result[1] == 0x59 && result[2] == 2
+//@ ensures [P:C15] result[3] == (isFlat ? uint8(0 - num) : num) && result[4] == (isMajor ? 0 : 1)
+
+//@ func (Message).GetMetaKeySig
+//@ requires distinct2(key, num) && distinct2(isMajor, isFlat)
+//@ modifies *key, *num, *isMajor, *isFlat
+//@ ensures [P:C08] result ==> smfTypeOf(len(m), m[0], m[1]) == MetaKeySigMsg
+//@ ensures [P:C15] (len(m) == 5 && m[0] == 0xFF && m[1] == 0x59) ==> result
+//@ ensures [P:C15] result && int8(m[3]) >= -7 && int8(m[3]) <= 7 && m[4] <= 1 ==> ((key != nil ==> int(*key) == keyOf(int(int8(m[3])), m[4] == 1)) && (num != nil ==> *num == (int8(m[3]) < 0 ? uint8(0 - m[3]) : m[3])) && (isMajor != nil ==> *isMajor == (m[4] == 0)) && (isFlat != nil ==> *isFlat == (int8(m[3]) < 0)))
+
+//@ func (Message).GetMetaKey
+//@ modifies *key
+//@ ensures [P:C08] result ==> smfTypeOf(len(m), m[0], m[1]) == MetaKeySigMsg
+//@ ensures [P:C15] (len(m) == 5 && m[0] == 0xFF && m[1] == 0x59) ==> result
+//@ ensures [P:C15] result && key != nil && int8(m[3]) >= -7 && int8(m[3]) <= 7 && m[4] <= 1 ==> (int(key.Key) == keyOf(int(int8(m[3])), m[4] == 1) && key.Num == (int8(m[3]) < 0 ? uint8(0 - m[3]) : m[3]) && key.IsMajor == (m[4] == 0) && key.IsFlat == (int8(m[3]) < 0))
+
+//@ func MetaSequencerData
+//@ requires len(data) < 4294967296
+//@ ensures [P:C15] fresh(result) && len(result) == 2 + vlqLen(uint32(len(data))) + len(data) && result[0] == 0xFF && result[1] == 0x7F
+//@ ensures [P:C15] forall i int :: 0 <= i && i < vlqLen(uint32(len(data))) ==> result[2 + i] == vlqByte(uint32(len(data)), i)
+//@ ensures [P:C15] forall i int :: 0 <= i && i < len(data) ==> result[2 + vlqLen(uint32(len(data))) + i] == data[i]
+
+//@ func MetaUndefined
+//@ requires len(data) < 4294967296
+//@ ensures [P:C15] fresh(result) && len(result) == 2 + vlqLen(uint32(len(data))) + len(data) && result[0] == 0xFF && result[1] == typ
+
+// ---- texts: FF type vlq(len) bytes. The accessor parses the VLQ length (decoder form: c length bytes).
+//@ macro textAt(m, c, text) = (vlqEnds5(arr(m), 2, c) && len(m) >= 2 + c + int(vlqDec(arr(m), 2, c))) ==> (uint32(len(*text)) == vlqDec(arr(m), 2, c) && forall i int :: 0 <= i && i < len(*text) ==> (*text)[i] == m[2 + c + i])
+
+//@ func (Message).text
+//@ requires len(m) >= 2
+//@ modifies *text
+//@ ensures [P:C15] text != nil ==> textAt(m, 1, text)
+//@ ensures [P:C15] text != nil ==> textAt(m, 2, text)
+
+//@ func MetaLyric
+//@ requires len(text) < 268435456
+//@ ensures [P:C15] fresh(result) && len(result) == 2 + vlqLen(uint32(len(text))) + len(text) && result[0] == 0xFF && result[1] == 0x05
+//@ ensures [P:C15] forall i int :: 0 <= i && i < vlqLen(uint32(len(text))) ==> result[2 + i] == vlqByte(uint32(len(text)), i)
+//@ ensures [P:C15] forall i int :: 0 <= i && i < len(text) ==> result[2 + vlqLen(uint32(len(text))) + i] == text[i]
+
+//@ func (Message).GetMetaLyric
+//@ modifies *text
+//@ ensures [P:C08] is ==> smfTypeOf(len(m), m[0], m[1]) == MetaLyricMsg
+//@ ensures [P:C15] (len(m) >= 3 && m[0] == 0xFF && m[1] == 0x05) ==> is
+//@ ensures [P:C15] is && text != nil ==> textAt(m, 1, text)
+//@ ensures [P:C15] is && text != nil ==> textAt(m, 2, text)
+
+//@ func MetaCopyright
+//@ requires len(text) < 268435456
+//@ ensures [P:C15] fresh(result) && len(result) == 2 + vlqLen(uint32(len(text))) + len(text) && result[0] == 0xFF && result[1] == 0x02
+//@ ensures [P:C15] forall i int :: 0 <= i && i < vlqLen(uint32(len(text))) ==> result[2 + i] == vlqByte(uint32(len(text)), i)
+//@ ensures [P:C15] forall i int :: 0 <= i && i < len(text) ==> result[2 + vlqLen(uint32(len(text))) + i] == text[i]
+
+//@ func (Message).GetMetaCopyright
+//@ modifies *text
+//@ ensures [P:C08] is ==> smfTypeOf(len(m), m[0], m[1]) == MetaCopyrightMsg
+//@ ensures [P:C15] (len(m) >= 3 && m[0] == 0xFF && m[1] == 0x02) ==> is
+//@ ensures [P:C15] is && text != nil ==> textAt(m, 1, text)
+//@ ensures [P:C15] is && text != nil ==> textAt(m, 2, text)
+
+//@ func MetaCuepoint
+//@ requires len(text) < 268435456
+//@ ensures [P:C15] fresh(result) && len(result) == 2 + vlqLen(uint32(len(text))) + len(text) && result[0] == 0xFF && result[1] == 0x07
+//@ ensures [P:C15] forall i int :: 0 <= i && i < vlqLen(uint32(len(text))) ==> result[2 + i] == vlqByte(uint32(len(text)), i)
+//@ ensures [P:C15] forall i int :: 0 <= i && i < len(text) ==> result[2 + vlqLen(uint32(len(text))) + i] == text[i]
+
+//@ func (Message).GetMetaCuepoint
+//@ modifies *text
+//@ ensures [P:C08] is ==> smfTypeOf(len(m), m[0], m[1]) == MetaCuepointMsg
+//@ ensures [P:C15] (len(m) >= 3 && m[0] == 0xFF && m[1] == 0x07) ==> is
+//@ ensures [P:C15] is && text != nil ==> textAt(m, 1, text)
+//@ ensures [P:C15] is && text != nil ==> textAt(m, 2, text)
+
+//@ func MetaDevice
+//@ requires len(text) < 268435456
+//@ ensures [P:C15] fresh(result) && len(result) == 2 + vlqLen(uint32(len(text))) + len(text) && result[0] == 0xFF && result[1] == 0x09
+//@ ensures [P:C15] forall i int :: 0 <= i && i < vlqLen(uint32(len(text))) ==> result[2 + i] == vlqByte(uint32(len(text)), i)
+//@ ensures [P:C15] forall i int :: 0 <= i && i < len(text) ==> result[2 + vlqLen(uint32(len(text))) + i] == text[i]
+
+//@ func (Message).GetMetaDevice
+//@ modifies *text
+//@ ensures [P:C08] is ==> smfTypeOf(len(m), m[0], m[1]) == MetaDeviceMsg
+//@ ensures [P:C15] (len(m) >= 3 && m[0] == 0xFF && m[1] == 0x09) ==> is
+//@ ensures [P:C15] is && text != nil ==> textAt(m, 1, text)
+//@ ensures [P:C15] is && text != nil ==> textAt(m, 2, text)
+
+//@ func MetaInstrument
+//@ requires len(text) < 268435456
+//@ ensures [P:C15] fresh(result) && len(result) == 2 + vlqLen(uint32(len(text))) + len(text) && result[0] == 0xFF && result[1] == 0x04
+//@ ensures [P:C15] forall i int :: 0 <= i && i < vlqLen(uint32(len(text))) ==> result[2 + i] == vlqByte(uint32(len(text)), i)
+//@ ensures [P:C15] forall i int :: 0 <= i && i < len(text) ==> result[2 + vlqLen(uint32(len(text))) + i] == text[i]
+
+//@ func (Message).GetMetaInstrument
+//@ modifies *text
+//@ ensures [P:C08] is ==> smfTypeOf(len(m), m[0], m[1]) == MetaInstrumentMsg
+//@ ensures [P:C15] (len(m) >= 3 && m[0] == 0xFF && m[1] == 0x04) ==> is
+//@ ensures [P:C15] is && text != nil ==> textAt(m, 1, text)
+//@ ensures [P:C15] is && text != nil ==> textAt(m, 2, text)
+
+//@ func MetaMarker
+//@ requires len(text) < 268435456
+//@ ensures [P:C15] fresh(result) && len(result) == 2 + vlqLen(uint32(len(text))) + len(text) && result[0] == 0xFF && result[1] == 0x06
+//@ ensures [P:C15] forall i int :: 0 <= i && i < vlqLen(uint32(len(text))) ==> result[2 + i] == vlqByte(uint32(len(text)), i)
+//@ ensures [P:C15] forall i int :: 0 <= i && i < len(text) ==> result[2 + vlqLen(uint32(len(text))) + i] == text[i]
+
+//@ func (Message).GetMetaMarker
+//@ modifies *text
+//@ ensures [P:C08] is ==> smfTypeOf(len(m), m[0], m[1]) == MetaMarkerMsg
+//@ ensures [P:C15] (len(m) >= 3 && m[0] == 0xFF && m[1] == 0x06) ==> is
+//@ ensures [P:C15] is && text != nil ==> textAt(m, 1, text)
+//@ ensures [P:C15] is && text != nil ==> textAt(m, 2, text)
+
+//@ func MetaProgram
+//@ requires len(text) < 268435456
+//@ ensures [P:C15] fresh(result) && len(result) == 2 + vlqLen(uint32(len(text))) + len(text) && result[0] == 0xFF && result[1] == 0x08
+//@ ensures [P:C15] forall i int :: 0 <= i && i < vlqLen(uint32(len(text))) ==> result[2 + i] == vlqByte(uint32(len(text)), i)
+//@ ensures [P:C15] forall i int :: 0 <= i && i < len(text) ==> result[2 + vlqLen(uint32(len(text))) + i] == text[i]
+
+//@ func (Message).GetMetaProgramName
+//@ modifies *text
+//@ ensures [P:C08] is ==> smfTypeOf(len(m), m[0], m[1]) == MetaProgramNameMsg
+//@ ensures [P:C15] (len(m) >= 3 && m[0] == 0xFF && m[1] == 0x08) ==> is
+//@ ensures [P:C15] is && text != nil ==> textAt(m, 1, text)
+//@ ensures [P:C15] is && text != nil ==> textAt(m, 2, text)
+
+//@ func MetaText
+//@ requires len(text) < 268435456
+//@ ensures [P:C15] fresh(result) && len(result) == 2 + vlqLen(uint32(len(text))) + len(text) && result[0] == 0xFF && result[1] == 0x01
+//@ ensures [P:C15] forall i int :: 0 <= i && i < vlqLen(uint32(len(text))) ==> result[2 + i] == vlqByte(uint32(len(text)), i)
+//@ ensures [P:C15] forall i int :: 0 <= i && i < len(text) ==> result[2 + vlqLen(uint32(len(text))) + i] == text[i]
+
+//@ func (Message).GetMetaText
+//@ modifies *text
+//@ ensures [P:C08] is ==> smfTypeOf(len(m), m[0], m[1]) == MetaTextMsg
+//@ ensures [P:C15] (len(m) >= 3 && m[0] == 0xFF && m[1] == 0x01) ==> is
+//@ ensures [P:C15] is && text != nil ==> textAt(m, 1, text)
+//@ ensures [P:C15] is && text != nil ==> textAt(m, 2, text)
+
+//@ func MetaTrackSequenceName
+//@ requires len(text) < 268435456
+//@ ensures [P:C15] fresh(result) && len(result) == 2 + vlqLen(uint32(len(text))) + len(text) && result[0] == 0xFF && result[1] == 0x03
+//@ ensures [P:C15] forall i int :: 0 <= i && i < vlqLen(uint32(len(text))) ==> result[2 + i] == vlqByte(uint32(len(text)), i)
+//@ ensures [P:C15] forall i int :: 0 <= i && i < len(text) ==> result[2 + vlqLen(uint32(len(text))) + i] == text[i]
+
+//@ func (Message).GetMetaTrackName
+//@ modifies *text
+//@ ensures [P:C08] is ==> smfTypeOf(len(m), m[0], m[1]) == MetaTrackNameMsg
+//@ ensures [P:C15] (len(m) >= 3 && m[0] == 0xFF && m[1] == 0x03) ==> is
+//@ ensures [P:C15] is && text != nil ==> textAt(m, 1, text)
+//@ ensures [P:C15] is && text != nil ==> textAt(m, 2, text)
